@@ -20,7 +20,7 @@ ASSUMPTIONS = ['n_word<=52; inputs exact doubles', 'callback counts are asserted
 EXHAUSTIVE = False    # the whole quantifier is not enumerated; complete sub-domains are listed in EXHAUSTIVE_SUBDOMAINS
 EXHAUSTIVE_SUBDOMAINS = {'quick': ['boundary writes: n_word<=6 x n_frac -8..n_word+8 x 10 modes x 18 boundary inputs x 3 routes'], 'thorough': ['same']}
 REQUIRED_CLASSES = {'history:raise-clean-reset': 50, 'write:overflow': 300, 'write:underflow': 300, 'write:inexact': 300, 'op:reset': 200, 'op:resize': 200,
-                    'op:arith': 200, 'op:write_fxp': 200, 'op:unary': 100, 'op:like_method': 100, 'boundary': 10000}
+                    'op:arith': 200, 'op:write_fxp': 200, 'write:empty-selection': 100, 'write:mask': 50, 'write:fancy': 50, 'op:unary': 100, 'op:like_method': 100, 'boundary': 10000}
 CB_NAMES = ('on_status_overflow', 'on_status_underflow', 'on_status_inaccuracy', 'on_value_change')
 
 
@@ -60,6 +60,10 @@ class World:
     def __init__(self):
         self.objs = []
         self.events = []
+        self.extra_classes = []
+
+    def cls_hook(self, name):
+        self.extra_classes.append(name)
 
     # ---- helpers
     def pick(self, i):
@@ -139,7 +143,27 @@ class World:
             else:
                 n = o.shape[0]
                 a = op['idx'] % n
-                if op.get('slice'):
+                selkind = op.get('sel')
+                if selkind:
+                    # one scalar written through a boolean mask / an index list / a slice - possibly selecting NOTHING, in which
+                    # case nothing is stored and so nothing happened: no flag, no overflow / underflow / inaccuracy notification
+                    bits = op.get('bits', 0)
+                    sel = [] if selkind.startswith('empty') else [j for j in range(n) if (bits >> j) & 1] or [a]
+                    vals = [C.v_from_x4(x4s[0], f)]
+                    index = {'mask': np.array([j in sel for j in range(n)]), 'fancy': list(sel), 'empty-mask': np.zeros(n, dtype=bool),
+                             'empty-fancy': [], 'empty-slice': slice(a, a)}[selkind]
+                    if selkind == 'empty-fancy':
+                        index = np.array([], dtype=int)
+                    o.x[index] = float(vals[0])
+                    self.cls_hook('write:' + ('empty-selection' if not sel else selkind))
+                    if not sel:
+                        got = o.cb.take() if o.cb is not None else None
+                        if got is not None and any(got[k] for k in ('on_status_overflow', 'on_status_underflow', 'on_status_inaccuracy')):
+                            raise Mismatch('write/setitem/empty-selection/callbacks', {'got': got})
+                        self._last_q = []
+                        return
+                    vals = vals * len(sel)
+                elif op.get('slice'):
                     b = min(a + len(x4s), n)
                     vals = [C.v_from_x4(x, f) for x in x4s[:b - a]]
                     o.x[a:b] = np.array([float(v) for v in vals])
@@ -419,6 +443,8 @@ class World:
                 nt = True
         for op in trace:
             ctx.cls('op:' + op['op'])
+        for c in self.extra_classes:
+            ctx.cls(c)
         if nt:
             ctx.cls('history:raise-clean-reset')
             ctx.nontrivial(('hist', repr(trace)))
@@ -511,7 +537,8 @@ def st_write(draw):
     # values are described relative to the target's range so that they stay meaningful for whichever object is picked
     return {'i': draw(st.integers(0, 7)), 'route': draw(st.sampled_from(['call', 'set_val', 'equal', 'setitem', 'setitem'])),
             'rel': [[draw(st.sampled_from(['hi', 'lo', 'zero', 'mid', 'far+', 'far-'])), draw(st.integers(-6, 6))] for _ in range(draw(st.integers(1, 4)))],
-            'idx': draw(st.integers(0, 7)), 'slice': draw(st.booleans()), 'scalar': draw(st.booleans()), 'array': draw(st.booleans())}
+            'idx': draw(st.integers(0, 7)), 'slice': draw(st.booleans()), 'scalar': draw(st.booleans()), 'array': draw(st.booleans()),
+            'sel': draw(st.sampled_from([None, None, None, 'mask', 'fancy', 'empty-mask', 'empty-fancy', 'empty-slice'])), 'bits': draw(st.integers(0, 255))}
 
 
 def resolve_rel(fmt, rel):
